@@ -9,8 +9,9 @@ CONSTANTS
     CapN = 0
     Cache = 0
     Compress = TRUE
+    CapProbe = FALSE
     Debug = FALSE
     HookMode = "ok"
 VIEW View
-PROPERTIES HttpEqualsPipe OneTurnPerContinuation CapsHold HookBalanced
+PROPERTIES HttpEqualsPipe OneTurnPerContinuation CapsHold CapReplaces HookBalanced
 CHECK_DEADLOCK FALSE
